@@ -51,8 +51,8 @@ def validate(wt, letter):
     return res
 
 
-def import_(wt, letter, prop, what_it_needs='', validated=None):
-    d = os.path.join(HERE, 'seeded', f'{prop}-{letter}')
+def import_(wt, letter, prop, what_it_needs='', validated=None, as_letter=None):
+    d = os.path.join(HERE, 'seeded', f'{prop}-{as_letter or letter}')
     os.makedirs(d, exist_ok=True)
     sh(f'cp {wt}/MUTATION_{letter}.diff {d}/patch.diff')
     sh(f'cp {wt}/demo_{letter}.py {d}/demo.py')
@@ -102,6 +102,44 @@ def run(ids):
     return out
 
 
+def _fast_one(name):
+    import shutil, tempfile
+    d = os.path.join(HERE, 'seeded', name)
+    tmp = tempfile.mkdtemp(prefix='pjx_seed_', dir='/tmp')
+    try:
+        shutil.copytree('/repo/pjrpc', os.path.join(tmp, 'pjrpc'))
+        rc, o = sh(f'patch -p1 -s -d {tmp} < {d}/patch.diff')
+        if rc != 0:
+            return name, {'error': o[:200]}
+        fired = {}
+        for p in PROPS:
+            rc, o = sh(f'{PY} -c "import sys; sys.path.insert(0, \'{HERE}\'); from pjx.__main__ import main; from pjx import report; report.finish = (lambda ck, battery=None: print(chr(10).join(f.file+chr(58)+chr(32)+chr(91)+f.rule+chr(93) for f in ck.findings if f.key not in {{(k[\'rule\'],k[\'function\'],k[\'construct\']) for k in report.load_known() if k.get(\'status\')==\'known\'}})) or 0); import pjx.__main__ as m; m.finish = report.finish; sys.exit(main([\'{p}\']))"', cwd=HERE, env={'PJX_REPO': tmp})
+            rules = sorted(set(re.findall(r'\[([A-Z-]+)\]', o)))
+            if 'ANALYSIS-ERROR' in o:
+                fired[p] = ['ANALYSIS-ERROR: ' + (re.findall(r'ANALYSIS-ERROR: (.*)', o) or ['?'])[0][:100]]
+            elif rules:
+                fired[p] = rules
+        return name, fired
+    finally:
+        shutil.rmtree(tmp, ignore_errors=True)
+
+
+def fast(ids):
+    """Development aid: evaluate the seeded patches on scratch copies (PJX_REPO) in parallel; evidence files are not touched."""
+    from concurrent.futures import ProcessPoolExecutor
+    base = os.path.join(HERE, 'seeded')
+    names = [n for n in sorted(os.listdir(base)) if os.path.isdir(os.path.join(base, n)) and (not ids or n in ids or n.split('-')[0] in ids or any(n.startswith(i) for i in ids))]
+    out = {}
+    with ProcessPoolExecutor(14) as ex:
+        for name, fired in ex.map(_fast_one, names):
+            out[name] = fired
+            target = name.split('-')[0]
+            t = fired.get(target)
+            verdict = 'CAUGHT by ' + str(t) if t and not str(t).startswith("['ANALYSIS") else ('ANALYSIS-ERROR in target' if t else 'MISSED by target')
+            print(f'{name}: target {target} -> {verdict}; all: {fired}')
+    return out
+
+
 if __name__ == '__main__':
     cmd = sys.argv[1]
     if cmd == 'validate':
@@ -110,3 +148,5 @@ if __name__ == '__main__':
         print(import_(sys.argv[2], sys.argv[3], sys.argv[4]))
     elif cmd == 'run':
         run(sys.argv[2:])
+    elif cmd == 'fast':
+        fast(sys.argv[2:])
